@@ -407,21 +407,21 @@ def _fx_cosmix(td, variant):
 
 
 def _fx_dc(td, variant):
-    return _det("cmos", temperature=200.0), {"figure_of_merit": 1.0, "spatial_noise_factor": 0.1, "band_gap": 1.1,
+    return _det("cmos", temperature=300.0), {"figure_of_merit": 1.0, "spatial_noise_factor": 0.1, "band_gap": 1.1,
                                              "band_gap_room_temperature": 1.12}
 
 
 def _fx_ridc(td, variant):
-    return _det("ccd", temperature=200.0), {"depletion_volume": 64.0, "annealing_time": 0.1, "displacement_dose": 50.0,
+    return _det("ccd", temperature=300.0), {"depletion_volume": 640.0, "annealing_time": 0.1, "displacement_dose": 5000.0,
                                             "shot_noise": True}
 
 
 def _fx_r07(td, variant):
-    return _det("cmos", temperature=120.0), {"cutoff_wavelength": 2.5, "spatial_noise_factor": 0.1, "temporal_noise": True}
+    return _det("cmos", temperature=250.0), {"cutoff_wavelength": 5.0, "spatial_noise_factor": 0.1, "temporal_noise": True}
 
 
 def _fx_saphira(td, variant):
-    return _det("apd", temperature=50.0), {}
+    return _det("apd", temperature=100.0), {}
 
 
 def _fx_qemap(td, variant):
@@ -607,8 +607,10 @@ def snap(det):
     return h.hexdigest()[:16]
 
 
-def _call_target(target, variant, seed, prior, td, fail_at=None):
-    """One execution: returns dict(before, after, out, exc, draws)."""
+def _call_target(target, variant, seed, prior, td, fail_at=None, outer_seed=None):
+    """One execution: returns dict(before, after, out, exc, draws).
+    outer_seed: the model gets no seed of its own (seed=None) and runs inside `set_random_seed(outer_seed)` - what a
+    pipeline seed does for every model of a run."""
     func, _mod = _resolve(target)
     fx, _nv = FIXTURES[target]
     stub = STUBS.get(target)
@@ -621,13 +623,19 @@ def _call_target(target, variant, seed, prior, td, fail_at=None):
     try:
         det, kw = fx(td, variant)
         if "seed" in inspect.signature(func).parameters:
-            kw = dict(kw, seed=seed)
+            kw = dict(kw, seed=seed if outer_seed is None else None)
         set_prior(prior)
         before = gstate()
         exc = None
         with DrawSeam(fail_at) as seam:
             try:
-                func(det, **kw)
+                if outer_seed is None:
+                    func(det, **kw)
+                else:
+                    from pyxel.util import set_random_seed
+
+                    with set_random_seed(outer_seed):
+                        func(det, **kw)
             except BaseException as e:  # noqa: BLE001
                 exc = e
         after = gstate()
@@ -686,6 +694,23 @@ def _model_case(case, td):
                         f"({'propagated as ' + type(rf['exc']).__name__ if rf['exc'] is not None else 'swallowed by the model'}); "
                         f"the process-wide generator state afterwards differs from the state before (prior state {prior!r})")
                     break
+    if "seed-parameter" in kind:
+        # the same model WITHOUT its own seed inside a seeded block (= under a pipeline seed): every draw it makes must
+        # come from the process-wide generator, so the output is the same whatever the prior state
+        outer = {}
+        for prior in priors:
+            r = _call_target(target, variant, seed, prior, td, outer_seed=4242 + (seed or 0) % 7)
+            n_exec += 1
+            if r["exc"] is not None:
+                break
+            outer[prior] = r["out"]
+            if r["after"] != r["before"]:
+                bad("state-not-restored", f"(unseeded model inside a seeded block) generator state after != before "
+                    f"(prior state {prior!r})", raised=False)
+        if len(set(outer.values())) > 1:
+            bad("not-reproducible-under-outer-seed", "without its own seed, inside `set_random_seed(s)` (what a pipeline "
+                f"seed does), the outputs differ between prior generator states {sorted(outer)}: some randomness does "
+                "not come from the process-wide generator")
     if "seed-parameter" in kind and len(set(outs.values())) > 1:
         groups = {}
         for p, o in outs.items():
@@ -696,8 +721,16 @@ def _model_case(case, td):
         if len(set(afters.values())) < len(set(priors)):
             bad("prior-states-merged", f"{len(priors)} different prior generator states end in "
                 f"{len(set(afters.values()))} distinct state(s) after the call: the call fixes the process-wide stream")
-    return viol, {"model_executions": n_exec, "fault_sites": n_fault, "transitions": n_exec}, \
-        {"draws": draws_seen, "out": sorted(set(outs.values()))[:2]}
+    # vacuity measure: does the randomness of this fixture reach the output at all?  (another seed must change it)
+    sensitive = None
+    if "seed-parameter" in kind and outs:
+        r2 = _call_target(target, variant, (seed or 0) + 1, priors[0], td)
+        n_exec += 1
+        if r2["exc"] is None:
+            sensitive = r2["out"] != outs.get(priors[0])
+    return viol, {"model_executions": n_exec, "fault_sites": n_fault, "transitions": n_exec,
+                  "fixtures_insensitive_to_seed": int(sensitive is False)}, \
+        {"draws": draws_seen, "out": sorted(set(outs.values()))[:2], "sensitive": sensitive}
 
 
 def _model_cases(tier, target, kind):
@@ -726,7 +759,7 @@ def _model_shard(shard):
         for c in mine:
             v, cnt, outcome = _model_case(c, td)
             for k2, n in cnt.items():
-                counts[k2] += n
+                counts[k2] = counts.get(k2, 0) + n
             sets["targets_covered"].add(c["target"])
             for o in outcome["out"]:
                 sets["model_outcomes"].add(f"{_short(c['target'])}:{c['variant']}:{c['seed']}:{o}")
